@@ -32,7 +32,7 @@ func init() {
 	register(&mc.Check{
 		ID:    "C12",
 		Level: "fault_enumeration",
-		Rule: "applications with growing session records x all input histories up to depth d; for the LAST request of each history (old record = state before it, or absent for a new session; new record = state after it) EVERY crash point of EVERY mutating file operation performed by the whole request (Exec..Finish) is enumerated: death before the operation, after it, and - for each write of n bytes - after every prefix of 1..n-1 bytes; process death = panic with a sentinel inside the os shim, all engine/persister/store objects discarded; " +
+		Rule: "applications with growing session records x all input histories up to depth d; for the LAST request of each history (old record = state before it, or absent for a new session; new record = state after it) EVERY crash point of EVERY mutating file operation performed by the whole request (Exec..Finish) is enumerated: death before the operation, after it, and - for each write of n bytes - after every prefix of 1..n-1 bytes; process death = panic with a sentinel inside the os shim, all engine/persister/store objects discarded; in addition every operation is answered once with an I/O error (refused; writes also as short writes of 1, n/2, n-1 bytes) after which the request runs to its end; " +
 			"oracle with fresh objects on the same directory: the neighbour session's record is byte-identical and no foreign file appears, the session's record decodes to the old state or to a state a completed save of that request wrote (never empty/truncated/undecodable), and the next request of a fresh engine answers exactly as the crash-free run does from that state; distinct = (app, history, operation kind, when) classes; non-trivial = crash points inside a write or between two operations of one save",
 		Assumptions: []string{"process death leaves completed writes intact (power loss / dropped unsynced blocks is outside the statement)", "the shim covers the os/ioutil functions listed in _shimsrc/vos; a tree that needs others fails to build (exit 2)", "leftover temporary files whose names start with '.' are tolerated"},
 		Run:         c12Run,
@@ -210,14 +210,19 @@ func c12Crash(appi int, inputs []string, p vos.Point, refs map[string]string) (s
 	vos.Arm(p)
 	r := s.Request([]byte(inputs[k]))
 	vos.Active = false
+	fired := vos.Fired
 	vos.Reset()
+	where := fmt.Sprintf("app %d history %q, process dies %s operation %d (prefix %d)", appi, inputs, p.When, p.Op, p.Prefix)
 	if _, ok := r.PanicVal.(vos.Crash); !ok {
 		if r.Panic != "" {
 			return "panic", "request panics: " + r.Panic, true
 		}
-		return "", "", false // the armed point was not reached
+		if !fired {
+			return "", "", false // the armed point was not reached
+		}
+		// an I/O error instead of a death: the request went on to its end
+		where = fmt.Sprintf("app %d history %q, operation %d fails with an I/O error (%s, prefix %d) and the request goes on (Finish: %q)", appi, inputs, p.Op, p.When, p.Prefix, r.FinishErr)
 	}
-	where := fmt.Sprintf("app %d history %q, process dies %s operation %d (prefix %d)", appi, inputs, p.When, p.Op, p.Prefix)
 	// (1) other sessions untouched
 	nb, err := os.ReadFile(recordPath(dir, "n1"))
 	if err != nil || string(nb) != string(neighbour) {
@@ -361,6 +366,14 @@ func c12Run(c *mc.Ctx) {
 					if op.Kind == "write" {
 						for pf := 1; pf < op.N; pf++ {
 							pts = append(pts, vos.Point{Op: oi, When: "partial", Prefix: pf})
+						}
+					}
+					// the same operation answered with an I/O error instead (the process lives on): refused
+					// outright, and for a write also as a short write of 1, n/2 and n-1 bytes
+					pts = append(pts, vos.Point{Op: oi, When: "fail"})
+					if op.Kind == "write" && op.N > 1 {
+						for _, pf := range []int{1, op.N / 2, op.N - 1} {
+							pts = append(pts, vos.Point{Op: oi, When: "fail-partial", Prefix: pf})
 						}
 					}
 					for _, p := range pts {
